@@ -281,6 +281,46 @@ class Item:
         self.text = t
         return self
 
+    def r2_xtrace(self):
+        """`if shell.options().print_commands_and_arguments { <only shell.trace_command(..) calls> }` dropped:
+        `set -x` output goes to stderr and has no effect on status or control flow.  LOST: the xtrace text."""
+        self._no_splice_yet()
+        t = self.text
+        pat = re.compile(r'(?m)^[ \t]*if shell\.options\(\)\.print_commands_and_arguments \{')
+        n = 0
+        while True:
+            m = pat.search(t)
+            if not m:
+                break
+            o = t.find('{', m.start())
+            e = match_brace(t, o)
+            body = t[o + 1:e - 1]
+            # remove the trace_command calls, then only if-let/else scaffolding may remain
+            rest = body
+            while True:
+                mm = re.search(r'shell\s*\.trace_command\(', rest)
+                if not mm:
+                    break
+                pp = rest.find('(', mm.start())
+                ee = match_close(rest, pp, '(', ')')
+                tail = re.match(r'\s*(\.await)?\s*;', rest[ee:])
+                if not tail:
+                    raise ExtractError('%s: xtrace block: trace_command call is not a statement' % self.name)
+                rest = rest[:mm.start()] + rest[ee + tail.end():]
+            rest2 = re.sub(r'//[^\n]*', '', rest)
+            rest2 = re.sub(r'if let Some\(\w+\) = &self_?\.\w+', '', rest2)
+            rest2 = re.sub(r'\belse\b', '', rest2)
+            if re.sub(r'[\s{}]', '', rest2):
+                raise ExtractError('%s: xtrace block contains more than trace_command calls: %r' % (self.name, rest2.strip()[:60]))
+            if t[e:e + 1] == '\n':
+                e += 1
+            ls = t.rfind('\n', 0, m.start()) + 1
+            self._log('R2', 'xtrace block dropped: %s' % ' '.join(t[m.start():e].split())[:90])
+            t = t[:ls] + t[e:]
+            n += 1
+        self.text = t
+        return self
+
     def r3(self):
         """async fn -> fn, .await removed."""
         self._no_splice_yet()
